@@ -18,7 +18,7 @@ use std::ops::Range;
 pub static INFO: PropInfo = PropInfo {
     id: "C08",
     level: "fault_enumeration",
-    rule: "two kinds of evaluation. (A) enumerated small scope (exhaustive: true refers to this sub-space only): for n <= 6 (quick) / 7 (thorough) EVERY ordered subset of the packet sequence numbers {0..n-1} (1957 / 13700 orders), each in 3 numberings (dense, stride 2, stride 1000 from a large base), is fed packet by packet to a fresh endpoint through process_packet; after every packet the recorded pending-ack list (hook) must be sorted, disjoint, non-adjacent, <= 64 ranges and denote exactly the fed set, and the ack packet emitted next must denote exactly that set. (B) sampled large scope: simulated lossy sessions (all fault profiles, ack-starved and data-starved directions, >64 disjoint ranges, acks of acks); after every arrival / send / tick the monitor computes from the hook the set of messages the sender no longer retransmits and requires each to have been delivered completely (all slices, byte-identical, decoded with the crate's decoder) to the still-connected peer; the public byte accounting (max - available = sum of lengths of unreleased messages) cross-checks the hook; every emitted Ack range must be a subset of the sequence numbers actually delivered to its emitter. Non-trivial (B) = faults occurred AND at least one message was released; distinct = fingerprints of the fed order (A) / event log (B). Plus one LONG ACK RANGE run per check (per shard in the thorough tier): packet 0 arrives, packets 1..k are lost, more than 2^16 later packets arrive while nothing of the reverse direction gets through; after the receiver's acknowledgement ('0 and one very long run') the sender must still hold exactly messages 1..k.",
+    rule: "two kinds of evaluation. (A) enumerated small scope (exhaustive: true refers to this sub-space only): for n <= 6 (quick) / 7 (thorough) EVERY ordered subset of the packet sequence numbers {0..n-1} (1957 / 13700 orders), each in 3 numberings (dense, stride 2, stride 1000 from a large base), is fed packet by packet to a fresh endpoint through process_packet; after every packet the recorded pending-ack list (hook) must be sorted, disjoint, non-adjacent, <= 64 ranges and denote exactly the fed set, and the ack packet emitted next must denote exactly that set. (B) sampled large scope: simulated lossy sessions (all fault profiles, ack-starved and data-starved directions, >64 disjoint ranges, acks of acks); after every arrival / send / tick the monitor computes from the hook the set of messages the sender no longer retransmits and requires each to have been delivered completely (all slices, byte-identical, decoded with the crate's decoder) to the still-connected peer; the public byte accounting (max - available = sum of lengths of unreleased messages) cross-checks the hook; every emitted Ack range must be a subset of the sequence numbers actually delivered to its emitter. Non-trivial (B) = faults occurred AND at least one message was released; distinct = fingerprints of the fed order (A) / event log (B). In the sessions (B) the other half of the clause is judged at the end: the link was healed for the whole liveness bound and nobody is disconnected, so no reliable message may still be missing at the receiving application while the sender holds it unreleased (it stopped retransmitting something the peer never got). Plus one LONG ACK RANGE run per check (per shard in the thorough tier): packet 0 arrives, packets 1..k are lost, more than 2^16 later packets arrive while nothing of the reverse direction gets through; after the receiver's acknowledgement ('0 and one very long run') the sender must still hold exactly messages 1..k.",
     assumptions: &[
         "the sequence number of a delivered packet is read with the crate's own decoder",
         "wire message ids are mapped to submissions by content",
@@ -603,6 +603,42 @@ pub fn one_run(ctx: &Ctx, out: &mut Outcome, run_seed: u64) {
     let before = out.get("released_messages");
     let (s, sim) = traffic::run(ctx, out, cfg, &plan, run_seed, &mut mons);
     let released = out.get("released_messages") - before;
+    // the other half of the clause: the sender STOPS retransmitting only after the peer has everything. The link was
+    // healed for the whole liveness bound, nobody is disconnected, yet a reliable message is still missing at the
+    // receiving application while the sender still holds it unreleased: it gave up retransmitting something the peer
+    // never got
+    if !s.all_obtained && !s.any_disconnected && !out.should_stop() {
+        let mut held: Vec<String> = Vec::new();
+        for c in 0..sim.cfg.n_clients {
+            for d in [UP, DOWN] {
+                let sender: Option<&RenetClient> = if d == UP { Some(&sim.clients[c]) } else { sim.server.verif_connection(sim.ids[c]) };
+                let Some(sender) = sender else { continue };
+                for (i, ch) in sim.cfg.chans(d).iter().enumerate() {
+                    if ch.kind == Kind::Unreliable || sim.outstanding_n[c][d as usize].get(i).copied().unwrap_or(0) == 0 {
+                        continue;
+                    }
+                    let un = sender.verif_unacked(ch.id).unwrap_or_default();
+                    if !un.is_empty() {
+                        held.push(format!("conn {} dir {} ch {}: {} message(s) not obtained, sender still holds ids {:?}", c, d, ch.id, sim.outstanding_n[c][d as usize][i], un.iter().take(6).collect::<Vec<_>>()));
+                    }
+                }
+            }
+        }
+        if !held.is_empty() {
+            let r = sim.replay_value(&ctx.prop, &ctx.engine, "the sender stops retransmitting a reliable message only after every packet needed to rebuild it has been handed to the peer", json!({"held": held}));
+            out.violation(
+                ctx,
+                "C08/stopped-retransmitting-before-delivery",
+                "the sender stops retransmitting a reliable message only after every packet needed to rebuild it has been handed to the peer",
+                format!("{} ticks after the link healed (bound {}): {}", s.ticks, s.bound, held.join("; ")),
+                r,
+            );
+        } else {
+            out.count("runs_not_fully_obtained_with_nothing_held");
+        }
+    } else if s.all_obtained {
+        out.count("runs_fully_delivered_after_heal");
+    }
     let faults = s.dropped + s.duplicated + s.reordered > 0;
     let nontrivial = faults && released > 0;
     out.count("session_runs");
